@@ -266,6 +266,24 @@ theorem probe_spec {F : Facts} (hF : Facts.WF F = true) (hg : GraphsOK F gs) (U 
     · simp only [hopt, List.isEmpty_cons, Bool.not_false, Bool.true_or, if_true, Bool.false_eq_true, if_false]
       exact hres
 
+/-- Without object bound aliases (what `ClauseWF` says) the object's interval is the clause's own. -/
+theorem specialiseO_eq {c : Clause} (h : c.oLowerAlias = [] ∧ c.oUpperAlias = []) (r : Row) (lo : QOpts) :
+    specialiseO r c lo = specialise r c lo := by
+  unfold specialiseO
+  cases hs : specialise r c lo with
+  | error e => rfl
+  | ok p =>
+    obtain ⟨c', lo'⟩ := p
+    have hst := specialise_strip hs
+    have e1 : c'.oLowerAlias = c.oLowerAlias := show (strip c').oLowerAlias = (strip c).oLowerAlias from congrArg Clause.oLowerAlias hst
+    have e2 : c'.oUpperAlias = c.oUpperAlias := show (strip c').oUpperAlias = (strip c).oUpperAlias from congrArg Clause.oUpperAlias hst
+    have hob : objBoundsForRow r c' = .ok c' := by
+      have a1 : c'.oLowerAlias = [] := e1.trans h.1
+      have a2 : c'.oUpperAlias = [] := e2.trans h.2
+      unfold objBoundsForRow objBound
+      rw [if_pos a1, if_pos a2]
+    simp only [hob]
+
 /-- **One row of `specifyClauseWithTable`.** Specialising the clause with a row, fetching and joining
     (or probing) gives the reference's join of that row with the clause. -/
 theorem addSpecifiedData_spec {F : Facts} (hF : Facts.WF F = true) (hg : GraphsOK F gs) (U : Universe gs)
@@ -273,6 +291,7 @@ theorem addSpecifiedData_spec {F : Facts} (hF : Facts.WF F = true) (hg : GraphsO
     (hfil : lo.filter = none) (out : List Row) (h : addSpecifiedData F gs r c lo 0 = .ok out) :
     SetEq out (specJoin (gs.flatMap scanOf) (nl lo.lower) (nl lo.upper) c r) ∧ ∀ r' ∈ out, RowOK U r' := by
   unfold addSpecifiedData at h
+  rw [specialiseO_eq hwf.noObjAliases] at h
   cases hsp : specialise r c lo with
   | error e => simp [hsp, bind, Except.bind] at h
   | ok p =>
